@@ -17,7 +17,7 @@ from ref import affine as af
 
 PROPERTY = "C02"
 LEVEL = "model_checking"
-RULE = ("every history of <= depth events (X*M, X*=M, reify(), abs(), Path(shape); M from a 17-matrix alphabet) "
+RULE = ("every history of <= depth events (X*M, X*=M, X@M, X@=M, reify(), abs(), Path(shape); M from a 17-matrix alphabet) "
         "applied to every object of the segment / path / shape alphabet x magnitudes {1e-3,1,1e5}; model state = "
         "accumulated matrix; a transition = one event, after which all sampled points are compared with the matrix "
         "image of the pristine object's points.  Non-trivial: the history contains a non-identity matrix; distinct = "
@@ -110,6 +110,12 @@ def _edited(svg, how):
         p.append(svg.QuadraticBezier((20, 20), (22, 25), (25, 21)))
     elif how == "iadd":
         p += svg.Arc((20, 20), 5, 3, 30, 0, 1, (25, 21))
+    elif how == "append-nostart":
+        # a segment without a start of its own: it is given the end of its predecessor
+        p.append(svg.Line(None, (25, 21)))
+        p.append(svg.QuadraticBezier(None, (22, 25), (20, 20)))
+    elif how == "insert-nostart":
+        p.insert(2, svg.Line(None, (6, -1)))
     return p
 
 
@@ -120,6 +126,8 @@ def path_alphabet(svg):
         "path-edit-insert": lambda: _edited(svg, "insert"),
         "path-edit-append": lambda: _edited(svg, "append"),
         "path-edit-iadd": lambda: _edited(svg, "iadd"),
+        "path-edit-append-nostart": lambda: _edited(svg, "append-nostart"),
+        "path-edit-insert-nostart": lambda: _edited(svg, "insert-nostart"),
         "path-lqc": lambda: svg.Path("M1,1 L3,-2 Q7,5 -4,1.5 C11,-6 0.25,13 -8.5,2.75 z"),
         "path-arcs": lambda: svg.Path("M0,0 A10,5 30 0 1 7,4 a3,6 -45 1 0 -4,1.5 L2,2 Z"),
         "path-2sub": lambda: svg.Path("M0,0 h5 v5 z m8,1 a2,1 0 1 1 0,0.5 l1,1"),
@@ -262,6 +270,18 @@ class Histories(SubCheck):
                     libA = libA * lm
                     if mname != "I":
                         nontriv = True
+                elif op in ("matmul", "imatmul"):
+                    # X @ M / X @= M: multiply and reify in one step (objects that carry a transform only)
+                    M = MATS[mname]
+                    lm = svg.Matrix(*M)
+                    if op == "matmul":
+                        x = x @ lm
+                    else:
+                        x @= lm
+                    A = af.mul(M, A)
+                    libA = libA * lm
+                    if mname != "I":
+                        nontriv = True
                 elif op == "reify":
                     x.reify()
                 elif op == "abs":
@@ -309,7 +329,7 @@ def build(tier, seed, svg):
     pathnames = list(path_alphabet(svg))
     mats = MNAMES
     ev_seg = ["mul:" + m for m in mats] + ["imul:" + m for m in mats]
-    ev_shape = ev_seg + ["reify", "abs", "topath"]
+    ev_shape = ev_seg + ["reify", "abs", "topath"] + ["matmul:" + m for m in ("T", "R30", "S23", "GN")] + ["imatmul:" + m for m in ("T", "S23", "SWAP")]
     depth = 3 if tier == "thorough" else 2
     seg_objs = [(n, mag) for n in segnames for mag in (1.0, 1e-3, 1e5)]
     if tier == "thorough":
@@ -318,7 +338,7 @@ def build(tier, seed, svg):
         return [Histories(svg, "segments", seg_objs, ev_seg3, 3, tier),
                 Histories(svg, "shapes", [(n, 1.0) for n in pathnames],
                           ["mul:" + m for m in mats] + ["imul:" + m for m in ("R30", "MX", "S23", "KX30", "GN", "SWAP")]
-                          + ["reify", "abs", "topath"], 3, tier)]
+                          + ["reify", "abs", "topath", "matmul:S23", "imatmul:GN"], 3, tier)]
     return [Histories(svg, "segments", seg_objs, ev_seg, depth, tier),
             Histories(svg, "shapes", [(n, 1.0) for n in pathnames], ev_shape, depth, tier)]
 
